@@ -803,13 +803,19 @@ Qed.
    wheld: the key objects stored in the maps of the world, in either table. *)
 Lemma T_C06_history_conserves_keys c w ts rs w' :
   0 < cR c -> WInv c w -> ok_run c w ts rs w' ->
-  wdks w' ++ wheld w' ++ keys_out ts rs ≡ₚ keys_in ts ++ wdks w ++ wheld w.
+  wdks w' ++ wheld w' ++ keys_out ts rs ≡ₚ keys_in c w ts ++ wdks w ++ wheld w.
 Proof. intros HR. apply history_conserves_keys. exact HR. Qed.
 
 (* once every map is gone, every key object ever given has been dropped or handed back, once *)
 Lemma T_C06_all_released c ts rs w' :
-  0 < cR c -> ok_run c world0 ts rs w' -> w_maps w' = ∅ -> wdks w' ++ keys_out ts rs ≡ₚ keys_in ts.
+  0 < cR c -> ok_run c world0 ts rs w' -> w_maps w' = ∅ -> wdks w' ++ keys_out ts rs ≡ₚ keys_in c world0 ts.
 Proof. intros HR. apply history_all_released. exact HR. Qed.
+(* what goes in: the key objects passed to insert/extend/from_iter/par_extend, and the copies that
+   clone/clone_from make of the source's key objects; without clones it is a function of the calls *)
+Lemma T_C06_keys_in_static c w ts rs w' :
+  ok_run c w ts rs w' -> forallb (fun t => static_in (t_op t)) ts = true ->
+  keys_in c w ts = concat (map (fun t => k_in world0 (t_op t)) ts).
+Proof. apply keys_in_static. Qed.
 
 (* the hypothesis [lite] holds in every reachable state: it is part of the invariant *)
 Lemma T_C06_lite_reachable R Esz s : Inv R Esz (s_rt s) -> lite s.
@@ -1219,9 +1225,11 @@ Proof.
 Qed.
 
 (* non-vacuity of the conservation law: create, 15 insertions (a resize in flight), an overwrite,
-   a removal of an old-table key, then drop: a lawful panic-free history from and to no map *)
+   a removal of an old-table key, a clone, an insertion into the clone, clone_from back, then both
+   dropped: a lawful panic-free history from and to no map *)
 Definition ex_hist2 : list traced :=
-  ex_hist ++ [T (OInsert 0 12 99 5) 0 0 [] []; T (ORemove 0 true 13) 0 0 [] []; T (ODrop 0) 0 0 [] []].
+  ex_hist ++ [T (OInsert 0 12 99 5) 0 0 [] []; T (ORemove 0 true 13) 0 0 [] []; T (OClone 0 1) 0 0 [] [];
+              T (OInsert 1 77 98 5) 0 0 [] []; T (OCloneFrom 0 1) 0 0 [] []; T (ODrop 0) 0 0 [] []; T (ODrop 1) 0 0 [] []].
 Example ex_ok_run : exists rs w', ok_run ex_cfg world0 ex_hist2 rs w' /\ w_maps w' = ∅.
 Proof.
   assert (H : option_map (fun p => size (w_maps (snd p))) (run_okb ex_cfg world0 ex_hist2) = Some 0%nat) by (vm_compute; reflexivity).
